@@ -869,8 +869,13 @@ def check_worker_call(chk, tu):
         if d.get('kind') == 'VarDecl' and d.get('init'):
             inits[d['name']] = astdb.expr_text(strip([c for c in kids(d) if c.get('kind')][-1], casts=True))
     args = [astdb.expr_text(strip(a, casts=True)) for a in astdb.call_args(calls[0])]
+    def from_task(a, pn):
+        if inits.get(a) == 'task->' + pn:
+            return True
+        m = re.fullmatch(r'(\w+)\.(\w+)', a)      # member of a local struct copy of the whole task record
+        return bool(m) and m.group(2) == pn and inits.get(m.group(1)) in ('*task', '*(task)', '*writer->task')
     for pn, a in zip(params, args):
-        chk.expect(inits.get(a) == 'task->' + pn, 'R09.7', 'worker-arg:' + pn,
+        chk.expect(from_task(a, pn), 'R09.7', 'worker-arg:' + pn,
                    'the worker passes %r (= %r) for parameter %s of wasmCWriteImplementationFile; expected the copy of task->%s'
                    % (a, inits.get(a), pn, pn), WORKER + ':call-args')
     # the producer fills each task field from the value the sequential build passes for the same parameter
